@@ -364,3 +364,82 @@ Proof.
   repeat (split; [assumption|]). split; [|repeat split; assumption].
   eapply svrun_reach; [|exact R2]. eapply svrun_reach; [apply sreach_init|exact R1].
 Qed.
+
+(* ---- an OUTDATED historical-rescan answer ("not found", or a block that is not
+        on the chain) delivered after the notifier found the tx / spend at tip and
+        more blocks were connected is within the environment obligations and
+        changes nothing: in particular the persisted hint stays at the
+        confirmation / spend height. ---- *)
+
+Definition st_cops : list cop :=
+  [CReg 1 1 1; CConnect 2 12 true; CNotify; CConnect 3 13 false; CNotify].
+Definition st_cops2 : list cop := [CUpd None; CUpd (Some (1, 1))].
+
+Lemma conf_stale_rescan_ignored :
+  exists w1 w,
+    cstart_ok pr_chain 1 144 None /\
+    cvrun (cinit pr_chain 1 144 None) st_cops w1 /\
+    cvrun w1 st_cops2 w /\ creach (cinit pr_chain 1 144 None) w /\
+    cw_st w = cw_st w1 /\ cw_log w = cw_log w1 /\
+    hint (cw_st w) = Some 2 /\ cpos (cw_chain w) = Some (2, 12) /\
+    clstate 1 (cw_log w) = Some (Some (2, 12)).
+Proof.
+  assert (R : exists w1, cvrun (cinit pr_chain 1 144 None) st_cops w1 /\
+            exists w, cvrun w1 st_cops2 w /\
+            cw_st w = cw_st w1 /\ cw_log w = cw_log w1 /\
+            hint (cw_st w) = Some 2 /\ cpos (cw_chain w) = Some (2, 12) /\
+            clstate 1 (cw_log w) = Some (Some (2, 12))).
+  { eexists. split.
+    { unfold st_cops. wstep. wstep. wstep. wstep. wstep. simpl. reflexivity. }
+    eexists. split.
+    { unfold st_cops2.
+      split; [simpl; intros s Hs Hd; inversion Hs; subst; discriminate Hd
+             |eexists; split; [vm_compute; reflexivity|]].
+      split; [simpl; intros s Hs Hd; inversion Hs; subst; discriminate Hd
+             |eexists; split; [vm_compute; reflexivity|]].
+      simpl. reflexivity. }
+    repeat split; vm_compute; reflexivity. }
+  destruct R as [w1 [R1 [w [R2 H]]]]. exists w1, w.
+  split; [exact pr_start_ok|]. split; [exact R1|]. split; [exact R2|]. split; [|exact H].
+  eapply cvrun_reach; [|exact R2]. eapply cvrun_reach; [apply creach_init|exact R1].
+Qed.
+
+Definition st_schain : list (N * option N) := [(1, None)].
+Definition st_sops : list sop :=
+  [SReg 1 1; SConnect 2 (Some 0); SNotify; SConnect 3 None; SNotify].
+Definition st_sops2 : list sop := [SUpd None; SUpd (Some (1, 1))].
+
+Lemma st_sstart_ok : sstart_ok st_schain 1 144 None.
+Proof.
+  unfold sstart_ok, st_schain. simpl. repeat split; try lia; try discriminate; auto.
+  all: try (intros; discriminate).
+Qed.
+
+Lemma spend_stale_rescan_ignored :
+  exists w1 w,
+    sstart_ok st_schain 1 144 None /\
+    svrun (sinit st_schain 1 144 None) st_sops w1 /\
+    svrun w1 st_sops2 w /\ sreach (sinit st_schain 1 144 None) w /\
+    sw_st w = sw_st w1 /\ sw_log w = sw_log w1 /\
+    shint (sw_st w) = Some 2 /\ spos (sw_chain w) = Some (2, 0) /\
+    slstate 1 (sw_log w) = Some (Some (2, 0)).
+Proof.
+  assert (R : exists w1, svrun (sinit st_schain 1 144 None) st_sops w1 /\
+            exists w, svrun w1 st_sops2 w /\
+            sw_st w = sw_st w1 /\ sw_log w = sw_log w1 /\
+            shint (sw_st w) = Some 2 /\ spos (sw_chain w) = Some (2, 0) /\
+            slstate 1 (sw_log w) = Some (Some (2, 0))).
+  { eexists. split.
+    { unfold st_sops. wstep. wstep. wstep. wstep. wstep. simpl. reflexivity. }
+    eexists. split.
+    { unfold st_sops2.
+      split; [simpl; intros s Hs Hd; inversion Hs; subst; discriminate Hd
+             |eexists; split; [vm_compute; reflexivity|]].
+      split; [simpl; intros s Hs Hd; inversion Hs; subst; discriminate Hd
+             |eexists; split; [vm_compute; reflexivity|]].
+      simpl. reflexivity. }
+    repeat split; vm_compute; reflexivity. }
+  destruct R as [w1 [R1 [w [R2 H]]]]. exists w1, w.
+  split; [exact st_sstart_ok|]. split; [exact R1|]. split; [exact R2|]. split; [|exact H].
+  eapply svrun_reach; [|exact R2]. eapply svrun_reach; [apply sreach_init|exact R1].
+Qed.
